@@ -346,6 +346,41 @@ def asm_returns(tree):
     return out
 
 
+# ---------------------------------------------------------------------------------------------- reference tables
+def ref_checks(tree):
+    """is each index into st->lookup / st->lookup_envs / st->lookup_defs preceded by its bounds test?"""
+    src = strip_comments(read(tree, "src/core/marsh.c"))
+    half = src[src.index("#define MARSH_EOS"):]
+    out = {}
+    env = func_body(src, "unmarshal_one_env")
+    d = env.find("st->lookup_envs[index]")
+    t = re.search(r"if\s*\(\s*index\s*<\s*0\s*\|\|\s*index\s*>=\s*janet_v_count\s*\(\s*st->lookup_envs\s*\)\s*\)\s*janet_panicf\s*\(", env)
+    if d < 0:
+        raise ExtractError("unmarshal_one_env: st->lookup_envs[index] not found")
+    out["envRefChecked"] = bool(t and t.start() < d)
+    df = func_body(src, "unmarshal_one_def")
+    d1, d2 = df.find("st->lookup_defs_done[index]"), df.find("st->lookup_defs[index]")
+    t = re.search(r"if\s*\(\s*index\s*<\s*0\s*\|\|\s*index\s*>=\s*janet_v_count\s*\(\s*st->lookup_defs\s*\)\s*\)\s*janet_panicf\s*\(", df)
+    if d1 < 0 or d2 < 0:
+        raise ExtractError("unmarshal_one_def: st->lookup_defs[index] / lookup_defs_done[index] not found")
+    out["defRefChecked"] = bool(t and t.start() < min(d1, d2))
+    if not re.search(r"int32_t\s+defindex\s*=\s*janet_v_count\s*\(\s*st->lookup_defs\s*\)\s*-\s*1\s*;", df) or \
+            not re.search(r"janet_v_push\s*\(\s*st->lookup_defs_done\s*,\s*0\s*\)\s*;", df):
+        raise ExtractError("unmarshal_one_def: defindex / lookup_defs_done push changed shape")
+    one = func_body(src, "unmarshal_one")
+    d = one.find("st->lookup[len]")
+    t = re.search(r"if\s*\(\s*len\s*>=\s*janet_v_count\s*\(\s*st->lookup\s*\)\s*\)\s*janet_panicf\s*\(", one)
+    if d < 0:
+        raise ExtractError("unmarshal_one: st->lookup[len] not found")
+    out["refChecked"] = bool(t and t.start() < d)
+    # no other index expression into the tables
+    idx = re.findall(r"st->lookup(?:_envs|_defs|_defs_done)?\s*\[\s*([^\]]*)\]", half)
+    known = sorted(["index", "index", "index", "defindex", "len"])
+    if sorted(i.strip() for i in idx if i.strip() != "i") != known:
+        raise ExtractError("marsh.c indexes the reference tables with %s: not classified" % idx)
+    return out
+
+
 def extract(tree):
     assert_constants(tree)
     from . import bytecode as gen_bytecode
@@ -364,7 +399,7 @@ def extract(tree):
     mm = strip_comments(read(tree, "src/core/marsh.c"))
     if not re.search(r"#ifdef\s+JANET_THREADS\s+void\s*\*p\s*=\s*janet_abstract_threaded", func_body(mm, "janet_unmarshal_abstract_threaded")):
         raise ExtractError("janet_unmarshal_abstract_threaded changed shape")
-    return {"asmReturns": asm_returns(tree), "threads": threads, "sites": extract_sites(tree), "abstracts": extract_abstracts(tree), "pegSizeChecked": peg_size_checked(tree), "jopCall": jop_call}
+    return {"refs": ref_checks(tree), "asmReturns": asm_returns(tree), "threads": threads, "sites": extract_sites(tree), "abstracts": extract_abstracts(tree), "pegSizeChecked": peg_size_checked(tree), "jopCall": jop_call}
 
 
 def render(tree):
@@ -387,6 +422,8 @@ def render(tree):
     L.append("abbrev pegSizeChecked : Bool := %s" % ("true" if x["pegSizeChecked"] else "false"))
     L.append("abbrev jopCall : Nat := %d" % x["jopCall"])
     L.append("abbrev threads : Bool := %s" % ("true" if x["threads"] else "false"))
+    for k in ("refChecked", "envRefChecked", "defRefChecked"):
+        L.append("abbrev %s : Bool := %s" % (k, "true" if x["refs"][k] else "false"))
     L.append("")
     L.append("/-- every `return` of janet_asm1 (asm.c): (status is JANET_ASSEMBLE_OK, `janet_verify(def)` was tested on the way with a")
     L.append("    no-return error branch and only flag bookkeeping follows) -/")
